@@ -530,6 +530,20 @@ func (e *Engine) parseWidthObligations() []*Obligation {
 					continue
 				}
 				nbits := int(bc.Int64())
+				// the base: every number of a presentation format is decimal (RFC 1035 5.1), except the EUI-48/EUI-64
+				// addresses, which are read as hexadecimal (RFC 7043)
+				if bb, ok := c.Call.Args[1].(*ssa.Const); ok && bb.Value != nil {
+					wantBase := int64(10)
+					if n == "(*EUI48).parse" || n == "(*EUI64).parse" {
+						wantBase = 16
+					}
+					sites++
+					if bb.Int64() != wantBase {
+						bad = append(bad, fmt.Sprintf("line %d: ParseUint(..., base %d, ...), the presentation format is base %d", e.fset.Position(c.Pos()).Line, bb.Int64(), wantBase))
+					}
+				} else {
+					bad = append(bad, fmt.Sprintf("line %d: ParseUint with a base that is not a constant", e.fset.Position(c.Pos()).Line))
+				}
 				if c.Referrers() == nil {
 					continue
 				}
@@ -559,7 +573,7 @@ func (e *Engine) parseWidthObligations() []*Obligation {
 			continue
 		}
 		ob := &Obligation{Fn: n, Name: n + "#parse.widths", Kind: "layout", Solver: "structural matcher (SSA data flow)", Pos: fn.Pos()}
-		ob.Src = fmt.Sprintf("every number parsed in %s is read with the bit width of the field it is stored in (%d sites)", n, sites)
+		ob.Src = fmt.Sprintf("every number parsed in %s is read in base 10 (EUI addresses: 16) with the bit width of the field it is stored in (%d sites)", n, sites)
 		ob.Clause = &Clause{Label: "parse.widths", Src: ob.Src}
 		if len(bad) == 0 {
 			ob.Status = "proved"
